@@ -2454,6 +2454,7 @@ impl XmlElement {
     }
 
     pub fn append_attribute(&mut self, attr: Rc<XmlItem>) {
+        attr.set_parent_id(Some(self.id()));
         attr.init_order_recursive();
         self.attributes.push(attr);
     }
@@ -2485,19 +2486,16 @@ impl XmlElement {
     }
 
     pub fn remove_attribute(&mut self, name: &str) -> Option<Rc<XmlItem>> {
-        if let Some(v) = self
+        let (removed, kept): (Vec<Rc<XmlItem>>, Vec<Rc<XmlItem>>) = self
             .attributes
-            .iter()
-            .find(|v| v.as_attribute().unwrap().borrow().local_name() == name)
-            .cloned()
-        {
-            self.attributes
-                .retain(|v| v.as_attribute().unwrap().borrow().local_name() != name);
+            .drain(..)
+            .partition(|v| v.as_attribute().unwrap().borrow().local_name() == name);
+        self.attributes = kept;
+        for v in removed.as_slice() {
+            v.set_parent_id(None);
             v.clear_order();
-            Some(v)
-        } else {
-            None
         }
+        removed.into_iter().next()
     }
 
     pub fn set_local_name(&mut self, local_name: &str) {
